@@ -7,6 +7,7 @@ Import ListNotations.
 From CR Require Import Base.G2Fold Model.IdPool Proofs.IdPool.
 From CR Require Import Model.IdPoolSrc Gen.Src_idpool Proofs.SrcIdPool.
 From CR Require Import Model.IdRemoveSrc Gen.Src_idremove Proofs.SrcIdRemove.
+From CR Require Import Model.IdAddSrc Gen.Src_idadd Proofs.SrcIdAdd.
 Open Scope Z_scope.
 
 (* what the invariant says: no two contained objects share an id, the id set is exactly the set of ids of the
@@ -142,6 +143,30 @@ Example C09_source_removal_nonvacuous :
    idset s1 = [1; 2; 3; 6] /\ statics s1 = [] /\ dynamics s1 = []).
 Proof. vm_compute. repeat split. Qed.
 
+(* ---- the adding steps of the model are the source -----------------------------------------------------------------
+   Gen/Src_idadd.v holds Scenario.add_objects (the chain of isinstance branches) and _lanelet_network_object_ids as parsed
+   on every run into the statement language of Model/IdAddSrc.v (harness/props/c09_add_src.py, fail-closed).  With the
+   removal methods above, every operation of the model is executed by parsed methods ([src_exec_all]; Generate:
+   C09_generate_is_source), each is the model's, and the invariant holds of every admissible history executed by them. *)
+Theorem C09_add_is_source : forall a lids s, run_add src_add a lids s = add_one a lids s.
+Proof. exact src_add_one. Qed.
+Theorem C09_every_operation_is_source : forall o s, src_exec_all src_removal src_add o s = exec o s.
+Proof. exact src_exec_all_is_model. Qed.
+Theorem C09_source_all_reachable_inv : forall ops,
+  all_ok step ok ops init = true -> Inv (run src_step_all ops init).
+Proof. exact src_all_reachable_inv. Qed.
+(* non-vacuity: the parsed add_objects really runs - a network is marked as a whole, the ids of the network it replaces
+   are released, an intersection whose incoming id is taken is rejected with nothing marked *)
+Example C09_source_add_nonvacuous :
+  let n1 := mkN [mkL 1 [] []] [2] [] [mkX 3 [4]] in
+  let n2 := mkN [mkL 7 [] []] [] [] [] in
+  let s1 := fst (run_add src_add (ANet n1) [] init) in
+  idset s1 = [4; 3; 2; 1] /\
+  idset (fst (run_add src_add (ANet n2) [] s1)) = [7] /\
+  run_add src_add (AObj (OInter (mkX 9 [4]))) [] s1 = (s1, Some ValueError) /\
+  snd (run_add_list src_add [AObj (OObst Static 5); AObj (OObst Env 5)] [] s1) = Some ValueError.
+Proof. vm_compute. repeat split. Qed.
+
 Print Assumptions C09_inv_meaning.
 Print Assumptions C09_init.
 Print Assumptions C09_step_inv.
@@ -164,3 +189,7 @@ Print Assumptions C09_removals_are_source.
 Print Assumptions C09_source_step_inv.
 Print Assumptions C09_source_reachable_inv.
 Print Assumptions C09_source_removal_nonvacuous.
+Print Assumptions C09_add_is_source.
+Print Assumptions C09_every_operation_is_source.
+Print Assumptions C09_source_all_reachable_inv.
+Print Assumptions C09_source_add_nonvacuous.
